@@ -2854,6 +2854,13 @@ class UnregisteredOp(Operation, ABC):
         return value_if_unregistered
 
 
+_UNREGISTERED_ATTR_CLASSES: dict[tuple[str, bool], type[UnregisteredAttr]] = {}
+"""
+The class of each unregistered attribute or type, by name and kind, shared by all
+contexts so that the same attribute parsed in two contexts compares equal.
+"""
+
+
 @dataclass(frozen=True, init=False)
 class UnregisteredAttr(ParametrizedAttribute, BuiltinAttribute, ABC):
     """
@@ -2916,6 +2923,8 @@ class UnregisteredAttr(ParametrizedAttribute, BuiltinAttribute, ABC):
         This function should not be called directly. Use methods from
         `Context` to get an `UnregisteredAttr` type.
         """
+        if (known := _UNREGISTERED_ATTR_CLASSES.get((name, is_type))) is not None:
+            return known
 
         @irdl_attr_definition(init=False)
         class UnregisteredAttrWithName(UnregisteredAttr):
@@ -2933,10 +2942,9 @@ class UnregisteredAttr(ParametrizedAttribute, BuiltinAttribute, ABC):
                 if self.is_type.data != int(is_type):
                     raise VerifyException("Unregistered attribute is_type mismatch")
 
-        if is_type:
-            return UnregisteredAttrTypeWithName
-        else:
-            return UnregisteredAttrWithName
+        attr_class = UnregisteredAttrTypeWithName if is_type else UnregisteredAttrWithName
+        _UNREGISTERED_ATTR_CLASSES[(name, is_type)] = attr_class
+        return attr_class
 
 
 @irdl_op_definition
